@@ -417,6 +417,8 @@ type World struct {
 	Gen      int
 	// Ancestors are the IO nodes every descendant must keep
 	Ancestors []IONode
+	// Checkpoints counts the save / restore steps taken in mid-run
+	Checkpoints int
 	// ConstructErr is set when the constructor itself failed
 	ConstructErr error
 	// GenelessAtStart counts constructor-made genomes without genes (NewPopulationRandom precondition violations)
@@ -501,6 +503,23 @@ func NewWorld(t *Tape, spec WorldSpec) *World {
 	}
 	w.Land = DrawLandscape(t, spec.Landscapes)
 	return w
+}
+
+// Checkpoint writes the living population to the simulated disk and carries on with what ReadPopulation restores from
+// it (a save / restore in mid-run: the restored population is heterogeneous, unlike one read back right after
+// construction). It returns the error of the write or the read.
+func (w *World) Checkpoint() error {
+	var buf bytes.Buffer
+	if err := w.Pop.Write(&buf); err != nil {
+		return err
+	}
+	pop, err := genetics.ReadPopulation(NewSimReader(w.T, buf.Bytes()), w.Opts)
+	if err != nil {
+		return err
+	}
+	w.Pop = pop
+	w.Checkpoints++
+	return nil
 }
 
 // Describe is a stable one-line description of the world.
